@@ -309,7 +309,7 @@ Proof.
     apply wp_bind.
     apply (replace_any_wp m1 (fun b => refs (pool w) b + one (names src b)) r src).
     - exact M1.
-    - destruct E1 as (Es & _). rewrite Es. eapply handle_ok_frame; [exact Hr|exact F1|]. intros; exact I.
+    - destruct E1 as (Es & _). rewrite Es. eapply handle_ok_frame; [exact Hr|exact F1|]. exact Hc.
     - intros b Hb. specialize (Hc b Hb). lia.
     - exact H1.
     - intros b Hb. unfold others. rewrite Hb. cbn [one].
@@ -322,7 +322,7 @@ Proof.
         * eapply MI_ext; [exact M2|]. intros b. unfold adj. pose proof (one_le (names r b)).
           destruct (names r b) eqn:Eb; cbn [one]; [specialize (Hc b Eb)|]; lia.
         * exact H2.
-        * eapply frame_trans; [eapply frame_weaken; [exact F1|intros; exact I]|].
+        * eapply frame_trans; [eapply frame_weaken; [exact F1|intros b Hb; unfold others in Hb; cbv beta; lia]|].
           eapply frame_weaken; [exact F2|]. intros b. unfold others. pose proof (one_le (names r b)). lia.
       + split; [reflexivity|]. split; [reflexivity|]. split; [lia|].
         rewrite <- Ht1. eapply text_of_frame; [exact H1|exact F2|destruct E2 as (Es & _); exact Es|].
@@ -367,7 +367,7 @@ Qed.
 Definition ctor_inv (w : world) (m' : mem) (s : option repr) : Prop :=
   match s with
   | Some r' => ctor_ok (wmem w) (refs (pool w)) m' r'
-  | None => same_env (wmem w) m' /\ MI (heap m') (refs (pool w)) /\ frame (heap (wmem w)) (heap m') (fun _ => True)
+  | None => same_env (wmem w) m' /\ MI (heap m') (refs (pool w)) /\ frame (heap (wmem w)) (heap m') (fun b => 1 <= refs (pool w) b)
   end.
 
 Lemma exec_ctor_sound w (c : cmd (option repr * outcome)) (P : mem -> option repr -> outcome -> Prop) :
@@ -444,4 +444,361 @@ Proof.
   split; [reflexivity|]. split; [reflexivity|]. split.
   - apply wf_append_some; [exact HW|]. apply ctor_ok_nonheap; auto; [exact (wf_mi _ HW)|apply inline_handle_ok; auto].
   - cbn [text_of]. apply inline_new_text; auto.
+Qed.
+
+Lemma op_from_static w s t w' out :
+  WF w -> nth_error (statics (wmem w)) s = Some t -> exec w (OFromStatic s) = (w', out) ->
+  exists o, w' = append_slot w (wmem w') o /\ WF w' /\ all_same w (wmem w')
+        /\ statics (wmem w') = statics (wmem w) /\ heap (wmem w') = heap (wmem w) /\ nreq (wmem w') = nreq (wmem w)
+        /\ ((o = None /\ out = PanicTooLong /\ STATIC_MAX_LENGTH < len t)
+            \/ (exists r', o = Some r' /\ out = OkUnit /\ text_of (wmem w') r' = t /\ is_heap r' = false
+                           /\ (16 < len t -> r' = Static s (len t)))).
+Proof.
+  intros HW Hs He. cbn [exec] in He. unfold static_len in He. rewrite Hs in He.
+  assert (Hv : Valid t).
+  { pose proof (wf_statics _ HW) as F. rewrite Forall_forall in F. apply F. eapply nth_error_In; eauto. }
+  destruct (exec_ctor_sound w (r <- from_static_str s (len t) ;;
+                   match r with ROk x => Ret (Some x, OkUnit) | RErr => Ret (None, PanicReserve)
+                              | RPanic p => Ret (None, of_panic p) end)
+              (fun m' o out => heap m' = heap (wmem w) /\ nreq m' = nreq (wmem w)
+              /\ ((o = None /\ out = PanicTooLong /\ STATIC_MAX_LENGTH < len t)
+                  \/ (exists r', o = Some r' /\ out = OkUnit /\ text_of m' r' = t /\ is_heap r' = false
+                                 /\ (16 < len t -> r' = Static s (len t))))) HW) with (w' := w') (out := out)
+    as (o & Ew & (Hh & Hn & HP) & HW' & Ha & Hst & _); [|exact He|].
+  - apply wp_bind. apply (from_static_str_wp (wmem w) (refs (pool w)) s t); [exact (wf_mi _ HW)|exact Hs|exact Hv|].
+    intros m' res [(E & Hh & Hn) Herr Hp Hok]. unfold lift. destruct res as [r'| |p]; apply wp_ret.
+    + destruct (Hok r' eq_refl) as (C1 & C2 & C3 & C4).
+      exists (Some r'), OkUnit. split; [reflexivity|]. split; [exact C1|]. split; [exact Hh|]. split; [exact Hn|].
+      right. exists r'. auto.
+    + congruence.
+    + destruct (Hp p eq_refl) as (-> & Hbig).
+      exists None, PanicTooLong. split; [reflexivity|]. split; [apply ctor_inv_none_same; auto|].
+      split; [exact Hh|]. split; [exact Hn|]. left. auto.
+  - exists o. auto 12.
+Qed.
+
+Lemma op_clone w i w' out :
+  WF w -> exec w (OClone i) = (w', out) ->
+  (get_slot w i = None /\ w' = append_slot w (wmem w) None /\ out = Skip)
+  \/ (exists r, nth_error (pool w) i = Some (Some r) /\ w' = append_slot w (wmem w') (Some r) /\ out = OkUnit
+        /\ clone_post (wmem w) (refs (pool w)) r (wmem w') r
+        /\ WF w' /\ all_same w (wmem w') /\ statics (wmem w') = statics (wmem w)).
+Proof.
+  intros HW He. cbn [exec] in He. destruct (get_slot w i) as [r|] eqn:Hg; [|left; injection He as <- <-; auto].
+  right. apply get_slot_nth in Hg.
+  pose proof (wf_mi _ HW) as HM. pose proof (wf_handles _ HW _ _ Hg) as Hr. pose proof (counted_refs _ _ _ Hg) as Hc.
+  destruct (exec_ctor_sound w (c <- make_shallow_clone r ;; Ret (Some c, OkUnit))
+              (fun m' s o => s = Some r /\ o = OkUnit /\ clone_post (wmem w) (refs (pool w)) r m' r) HW)
+    with (w' := w') (out := out) as (s & Ew & (-> & -> & HP) & HW' & Ha & Hs & _); [|exact He|].
+  - apply wp_bind. apply (clone_wp (wmem w) (refs (pool w)) r); auto. intros m' c HP. unfold lift. apply wp_ret.
+    pose proof HP as [-> C _ _ _]. exists (Some r), OkUnit. split; [reflexivity|]. split; [exact C|]. auto.
+  - exists r. auto 10.
+Qed.
+
+(* ---------- constructors that build in an owned accumulator (collect, to_lean_string on a Display type) ---------- *)
+Lemma finish_acc_wp w m1 r1 oc (Q : out (option repr * outcome) -> mem -> Prop) :
+  ctor_ok (wmem w) (refs (pool w)) m1 r1 ->
+  (oc = OkUnit -> Q (OVal (Some r1, OkUnit)) m1) ->
+  (oc <> OkUnit -> forall m2, ctor_inv w m2 None -> Q (OVal (None, oc)) m2) ->
+  wp (finish_acc (r1, oc)) Q m1.
+Proof.
+  intros [E M H F] Hok Hno. unfold finish_acc.
+  assert (Hdrop : oc <> OkUnit -> wp (replace_inner r1 repr_new;;; Ret (None, oc)) Q m1).
+  { intros Hne. apply wp_bind.
+    apply (replace_nonheap_wp m1 (fun b => refs (pool w) b + one (names r1 b)) r1 repr_new); auto.
+    - intros b Hb. rewrite Hb. cbn [one]. lia.
+    - intros h. apply repr_new_ok.
+    - intros m2 r2 [-> [E2 M2 H2 F2] Hn2 _]. unfold lift. apply wp_ret. apply Hno; [exact Hne|].
+      cbn [ctor_inv]. split; [eapply same_env_trans; eauto|]. split.
+      + eapply MI_ext; [exact M2|]. intros b. unfold adj. cbn [names repr_new one]. pose proof (one_le (names r1 b)). lia.
+      + eapply frame_trans; [exact F|]. eapply frame_weaken; [exact F2|]. intros b Hb. unfold others. cbv beta in Hb.
+        pose proof (one_le (names r1 b)). lia. }
+  destruct oc; try (apply Hdrop; discriminate). apply wp_ret. apply Hok. reflexivity.
+Qed.
+
+Record acc_post (ps : list (list N)) (ea pa : option nat) (m' : mem) (s : option repr) (out : outcome) : Prop := {
+  ac_done : alloc_failure out = false ->
+            match first_stop ea pa 0 (length ps) with
+            | Some (_, o) => s = None /\ out = o
+            | None => exists r', s = Some r' /\ out = OkUnit /\ text_of m' r' = concat ps
+            end;
+  ac_fail : alloc_failure out = true -> s = None;
+}.
+
+Lemma first_stop_outcome ea pa k n x o : first_stop ea pa k n = Some (x, o) -> o = ErrFmt \/ o = PanicUser.
+Proof.
+  unfold first_stop. destruct (stop_at ea k n), (stop_at pa k n); try discriminate.
+  - destruct (Nat.leb n0 n1); intros E; injection E as _ <-; auto.
+  - intros E; injection E as _ <-; auto.
+  - intros E; injection E as _ <-; auto.
+Qed.
+
+Lemma outcome_eq_dec_reserve (o : outcome) : o = PanicReserve \/ o <> PanicReserve.
+Proof. destruct o; (left; reflexivity) || (right; discriminate). Qed.
+
+(* the loop over an accumulator r0 that is owned once and not in the pool *)
+Lemma acc_loop_wp w m0 r0 ps ea pa (fx : outcome -> outcome) (Q : out (option repr * outcome) -> mem -> Prop) :
+  WF w -> ctor_ok (wmem w) (refs (pool w)) m0 r0 -> text_of m0 r0 = [] -> Forall Valid ps ->
+  (forall o, fx o = OkUnit <-> o = OkUnit) -> (forall o, o <> PanicReserve -> fx o = o) -> alloc_failure (fx PanicReserve) = true ->
+  (forall m' s out, ctor_inv w m' s -> acc_post ps ea pa m' s out -> Q (OVal (s, out)) m') ->
+  wp (p <- write_pieces r0 ps 0 ea pa ;; let '(r, o) := p in finish_acc (r, fx o)) Q m0.
+Proof.
+  intros HW [E0 M0 H0 F0] Ht0 Hv Hfx1 Hfx2 Hfx3 HQ.
+  apply wp_bind. apply (write_pieces_wp ps m0 (fun b => refs (pool w) b + one (names r0 b)) r0 0 ea pa); auto.
+  { intros b Hb. rewrite Hb. cbn [one]. lia. }
+  intros m1 r1 o [[E1 M1 H1 F1] P2 P3]. unfold lift. rewrite Ht0 in P2, P3. cbn [app] in P2, P3.
+  assert (C1 : ctor_ok (wmem w) (refs (pool w)) m1 r1).
+  { split.
+    - eapply same_env_trans; eauto.
+    - eapply MI_ext; [exact M1|]. intros b. unfold adj. pose proof (one_le (names r0 b)). lia.
+    - exact H1.
+    - eapply frame_trans; [exact F0|]. eapply frame_weaken; [exact F1|]. intros b Hb. unfold others. cbv beta in Hb.
+      pose proof (one_le (names r0 b)). lia. }
+  apply (finish_acc_wp w); [exact C1| |].
+  - intros Eo. apply (proj1 (Hfx1 o)) in Eo. subst o. apply HQ; [exact C1|]. split.
+    + intros _. assert (Hne : OkUnit <> PanicReserve) by discriminate. specialize (P2 Hne).
+      destruct (first_stop ea pa 0 (length ps)) as [[n o]|] eqn:Efs.
+      * destruct P2 as (Eo & _). destruct (first_stop_outcome _ _ _ _ _ _ Efs) as [->| ->]; discriminate.
+      * exists r1. destruct P2 as (_ & Ht). auto.
+    + cbn [alloc_failure]. discriminate.
+  - intros Hne m2 Hinv. apply HQ; [exact Hinv|]. split.
+    + intros Haf. destruct (outcome_eq_dec_reserve o) as [->|Hnr].
+      * rewrite Hfx3 in Haf. discriminate.
+      * rewrite (Hfx2 o Hnr) in *. specialize (P2 Hnr).
+        destruct (first_stop ea pa 0 (length ps)) as [[n o']|].
+        -- destruct P2 as (-> & _). auto.
+        -- destruct P2 as (-> & _). exfalso. apply Hne. reflexivity.
+    + intros _. reflexivity.
+Qed.
+
+Definition ctor_result (w w' : world) (P : mem -> option repr -> Prop) : Prop :=
+  exists s, w' = append_slot w (wmem w') s /\ P (wmem w') s /\ WF w' /\ all_same w (wmem w')
+            /\ statics (wmem w') = statics (wmem w) /\ ctor_inv w (wmem w') s.
+
+Lemma fx_id_props : (forall o : outcome, o = OkUnit <-> o = OkUnit) /\ (forall o : outcome, o <> PanicReserve -> o = o)
+                    /\ alloc_failure PanicReserve = true.
+Proof. repeat split; auto. Qed.
+
+Lemma op_display w m ea pa ps w' out :
+  WF w -> Forall Valid ps -> exec w (ODisplay m ea pa ps) = (w', out) ->
+  ctor_result w w' (fun m' s => acc_post ps ea pa m' s out).
+Proof.
+  intros HW Hv He. cbn [exec] in He. unfold ctor_result.
+  eapply (exec_ctor_sound w (display m ea pa ps) (fun m' s o => acc_post ps ea pa m' s o)); [exact HW| |exact He].
+  unfold display.
+  apply (acc_loop_wp w (wmem w) repr_new ps ea pa (fun o => match o with PanicReserve => fin m false | _ => o end));
+    [exact HW| | |exact Hv| | | |].
+  - apply ctor_ok_nonheap; [exact (wf_mi _ HW)|apply same_env_refl|reflexivity|reflexivity|apply repr_new_ok].
+  - apply repr_new_text.
+  - intros o. destruct o, m; cbn [fin]; split; intros H; try discriminate; auto.
+  - intros o Hne. destruct o; auto. congruence.
+  - destruct m; reflexivity.
+  - intros m' s o Hinv HP. exists s, o. auto.
+Qed.
+
+Lemma acc_pair_wp w m0 r0 ps pa :
+  WF w -> ctor_ok (wmem w) (refs (pool w)) m0 r0 -> text_of m0 r0 = [] -> Forall Valid ps ->
+  wp (p <- write_pieces r0 ps 0 None pa ;; finish_acc p)
+     (fun o0 m' => exists s out0, o0 = OVal (s, out0) /\ ctor_inv w m' s /\ acc_post ps None pa m' s out0) m0.
+Proof.
+  intros HW [E0 M0 H0 F0] Ht0 Hv.
+  apply wp_bind. apply (write_pieces_wp ps m0 (fun b => refs (pool w) b + one (names r0 b)) r0 0 None pa).
+  - exact M0.
+  - exact H0.
+  - intros b Hb. rewrite Hb. cbn [one]. lia.
+  - exact Hv.
+  - intros m1 r1 o HP1. unfold lift.
+    pose proof HP1 as [[E1 M1 H1 F1] P2 P3]. rewrite Ht0 in P2, P3. cbn [app] in P2, P3.
+    assert (C1 : ctor_ok (wmem w) (refs (pool w)) m1 r1).
+    { split.
+      - eapply same_env_trans; eauto.
+      - eapply MI_ext; [exact M1|]. intros b. unfold adj. pose proof (one_le (names r0 b)). lia.
+      - exact H1.
+      - eapply frame_trans; [exact F0|]. eapply frame_weaken; [exact F1|]. intros b Hb. unfold others. cbv beta in Hb.
+        pose proof (one_le (names r0 b)). lia. }
+    apply (finish_acc_wp w); [exact C1| |].
+    + intros ->. exists (Some r1), OkUnit. split; [reflexivity|]. split; [exact C1|]. split.
+      * intros _. assert (Hne : OkUnit <> PanicReserve) by discriminate. specialize (P2 Hne).
+        destruct (first_stop None pa 0 (length ps)) as [[n o]|] eqn:Efs.
+        -- destruct P2 as (Eo & _). destruct (first_stop_outcome _ _ _ _ _ _ Efs) as [->| ->]; discriminate.
+        -- exists r1. destruct P2 as (_ & Ht). auto.
+      * discriminate.
+    + intros Hne m2 Hinv. exists None, o. split; [reflexivity|]. split; [exact Hinv|]. split.
+      * intros Haf. assert (Hnr : o <> PanicReserve) by (intros ->; discriminate). specialize (P2 Hnr).
+        destruct (first_stop None pa 0 (length ps)) as [[n o']|].
+        -- destruct P2 as (-> & _). auto.
+        -- destruct P2 as (-> & _). exfalso. apply Hne. reflexivity.
+      * intros _. reflexivity.
+Qed.
+
+Lemma op_collect_strs w pa ss w' out :
+  WF w -> Forall Valid ss -> exec w (OCollectStrs pa ss) = (w', out) ->
+  ctor_result w w' (fun m' s => acc_post ss None pa m' s out).
+Proof.
+  intros HW Hv He. cbn [exec] in He. unfold ctor_result.
+  eapply (exec_ctor_sound w (collect_strs pa ss) (fun m' s o => acc_post ss None pa m' s o)); [exact HW| |exact He].
+  unfold collect_strs, push_strs. apply acc_pair_wp; [exact HW| |apply repr_new_text|exact Hv].
+  apply ctor_ok_nonheap; [exact (wf_mi _ HW)|apply same_env_refl|reflexivity|reflexivity|apply repr_new_ok].
+Qed.
+
+Lemma op_collect_chars w hint pa cs w' out :
+  WF w -> Forall (fun c => is_scalar c = true) cs -> exec w (OCollectChars hint pa cs) = (w', out) ->
+  ctor_result w w' (fun m' s => acc_post (map encode_cp cs) None pa m' s out).
+Proof.
+  intros HW Hv He. cbn [exec] in He. unfold ctor_result.
+  eapply (exec_ctor_sound w (collect_chars hint pa cs) (fun m' s o => acc_post (map encode_cp cs) None pa m' s o));
+    [exact HW| |exact He].
+  unfold collect_chars, push_chars. apply wp_bind.
+  apply (with_capacity_wp (wmem w) (refs (pool w))); [exact (wf_mi _ HW)|].
+  intros m0 oc HP. unfold lift. destruct oc as [r0|].
+  - destruct (wc_some _ _ _ _ _ HP r0 eq_refl) as (C0 & T0 & _).
+    apply acc_pair_wp; [exact HW|exact C0|exact T0|apply Forall_valid_encode; exact Hv].
+  - destruct (wc_none _ _ _ _ _ HP eq_refl) as (E0 & Hh0 & _).
+    apply acc_pair_wp; [exact HW| |apply repr_new_text|apply Forall_valid_encode; exact Hv].
+    apply ctor_ok_nonheap; [exact (wf_mi _ HW)|exact E0|exact Hh0|reflexivity|apply repr_new_ok].
+Qed.
+
+(* ---------- a constructor followed by in-place steps on the new handle ---------- *)
+Lemma ctor_step_trans m own m1 r1 m2 r2 :
+  ctor_ok m own m1 r1 -> step_ok m1 (fun b => own b + one (names r1 b)) r1 m2 r2 -> ctor_ok m own m2 r2.
+Proof.
+  intros [E0 M0 H0 F0] [E1 M1 H1 F1]. split.
+  - eapply same_env_trans; eauto.
+  - eapply MI_ext; [exact M1|]. intros b. unfold adj. pose proof (one_le (names r1 b)). lia.
+  - exact H1.
+  - eapply frame_trans; [exact F0|]. eapply frame_weaken; [exact F1|]. intros b Hb. unfold others. cbv beta in Hb.
+    pose proof (one_le (names r1 b)). lia.
+Qed.
+
+Lemma ascii_valid_dec z : Valid (dec z).
+Proof.
+  apply valid_ascii. eapply Forall_impl; [|apply dec_ascii]. intros b [->|H]; lia.
+Qed.
+
+Record from_int_post (m : mem) (own : bufid -> N) (z : Z) (m' : mem) (o : option repr) : Prop := {
+  fi_none : o = None -> same_env m m' /\ heap m' = heap m /\ 16 < len (dec z);
+  fi_some : forall r', o = Some r' ->
+            ctor_ok m own m' r' /\ text_of m' r' = dec z
+            /\ (len (dec z) <= 16 -> is_heap r' = false /\ is_static r' = false /\ heap m' = heap m /\ nreq m' = nreq m)
+            /\ (16 < len (dec z) -> is_heap r' = true /\ cap_of m' r' = len (dec z) /\ nreq m' = nreq m + 1);
+}.
+
+Lemma from_int_wp m own t z lo hi (Q : out (option repr) -> mem -> Prop) :
+  MI (heap m) own -> lut_ok dec_digits_lut = true -> check_table (table_of t) lo hi = true -> (lo <= z <= hi)%Z ->
+  (forall m' o, from_int_post m own z m' o -> Q (OVal o) m') ->
+  wp (from_int t z) Q m.
+Proof.
+  intros HM Hlut Htab Hz HQ. unfold from_int.
+  assert (Hr : (-9223372036854775808 <= z <= 18446744073709551615)%Z).
+  { unfold check_table in Htab. apply andb_true_iff in Htab. destruct Htab as (H1 & _).
+    apply andb_true_iff in H1. destruct H1 as (H1 & H2). apply Z.leb_le in H1, H2. lia. }
+  pose proof (lookup_is_length _ _ _ Htab z Hz) as Hlk. rewrite <- (dec_length z Hr) in Hlk. rewrite Hlk.
+  pose proof (int_to_text_correct _ _ _ _ Hlut Htab z Hz) as Hw. unfold int_to_text in Hw. rewrite Hlk in Hw. rewrite Hw.
+  set (txt := dec z) in *. pose proof (ascii_valid_dec z) as Hv. fold txt in Hv.
+  pose proof (dlen_le_20 z Hr) as H20. rewrite <- (dec_length z Hr) in H20. fold txt in H20.
+  apply wp_bind. apply (with_capacity_wp m own); [exact HM|]. intros m1 oc HP. unfold lift.
+  destruct oc as [r1|].
+  2:{ destruct (wc_none _ _ _ _ _ HP eq_refl) as (E & Hh & Hb). apply wp_ret. apply HQ. split; [auto|discriminate]. }
+  destruct (wc_some _ _ _ _ _ HP r1 eq_refl) as (C1 & T1 & Hcap & Hex & Hsm & Hbg).
+  pose proof (co_mi _ _ _ _ C1) as M1. pose proof (co_h _ _ _ _ C1) as H1.
+  destruct (N.leb_spec (len txt) 16) as [Hs|Hb].
+  - destruct (Hsm Hs) as (-> & Hh1 & Hn1). cbn [write_at repr_new].
+    apply wp_bind. apply wp_ret. unfold lift. apply wp_bind. apply set_len_wp; [unfold MAX_LEN; lia|]. unfold lift. apply wp_ret.
+    cbn [with_len]. change (N.to_nat 0) with 0%nat.
+    set (d' := write_range inline_empty 0 txt).
+    assert (Hl16 : (length txt <= 16)%nat) by (unfold len in Hs; lia).
+    assert (Hd' : length d' = 16%nat) by (unfold d'; rewrite write_range_length; [reflexivity|cbn [length inline_empty zeros repeat app]; lia]).
+    assert (Hpre : firstn (N.to_nat (len txt)) d' = txt).
+    { unfold d'. rewrite len_to_nat. replace (length txt) with (0 + length txt)%nat at 1 by lia.
+      rewrite write_range_prefix by lia. reflexivity. }
+    assert (Hv2 : Valid (firstn (N.to_nat (len txt)) d')) by (rewrite Hpre; exact Hv).
+    assert (H192 : len txt = 16 -> nthN d' 15 < 192).
+    { intros E. apply full_inline_last; [exact Hd'|]. rewrite E in Hv2. exact Hv2. }
+    destruct (finish_inline m1 (fun b => own b + one (names repr_new b)) inline_empty d' (len txt) m1 M1 Hd' Hs Hv2 H192
+                (same_env_refl m1) eq_refl) as (S1 & S2 & S3).
+    apply HQ. split; [discriminate|]. intros r' E. injection E as <-.
+    split; [eapply ctor_step_trans; eauto|]. split; [rewrite S2; exact Hpre|]. split; [intros _; auto|intros Hx; lia].
+  - destruct (Hbg Hb) as (Hh1 & Hc1 & Hn1).
+    destruct r1 as [d|b l1|s1 l1]; try discriminate.
+    destruct Hex as (x & Hbx & Hlx & Hcx). cbn [cap_of] in Hc1. rewrite Hbx in Hc1.
+    destruct (MI_lookup _ _ _ _ M1 Hbx Hlx) as ((W1 & W2 & W3) & _ & _).
+    cbn [write_at]. apply wp_bind. apply wp_bind. eapply write_heap_wp; [exact Hbx|exact Hlx|lia|].
+    intros m2 He2 Hh2 Hn2. unfold lift. apply wp_ret. unfold lift.
+    apply wp_bind. apply set_len_wp; [unfold MAX_LEN; lia|]. unfold lift. apply wp_ret. cbn [with_len].
+    change (N.to_nat 0) with 0%nat in Hh2.
+    set (d' := write_range (data x) 0 txt) in *.
+    assert (Hd' : len d' = len (data x)).
+    { unfold d', len. rewrite write_range_length; [reflexivity|]. unfold len in *. lia. }
+    assert (Hpre : firstn (N.to_nat (len txt)) d' = txt).
+    { unfold d'. rewrite len_to_nat. replace (length txt) with (0 + length txt)%nat at 1 by lia.
+      rewrite write_range_prefix by lia. reflexivity. }
+    assert (Hv2 : Valid (firstn (N.to_nat (len txt)) d')) by (rewrite Hpre; exact Hv).
+    assert (Hlc : len txt <= cap x) by lia.
+    destruct (heap_data_step_ok m1 (fun b' => own b' + one (names (Heap b l1) b')) b l1 (len txt) x d' m2 M1 Hbx Hlx Hcx Hd' Hlc Hv2 He2 Hh2)
+      as (S1 & S2 & S3 & S4).
+    apply HQ. split; [discriminate|]. intros r' E. injection E as <-.
+    split; [eapply ctor_step_trans; eauto|]. split; [rewrite S2; exact Hpre|]. split; [intros Hx; lia|].
+    intros _. split; [reflexivity|]. split; [rewrite S4; exact Hc1|lia].
+Qed.
+
+Lemma op_from_int w m t z lo hi w' out :
+  WF w -> lut_ok dec_digits_lut = true -> check_table (table_of t) lo hi = true -> (lo <= z <= hi)%Z ->
+  exec w (OFromInt m t z) = (w', out) ->
+  exists s, w' = append_slot w (wmem w') s /\ WF w' /\ all_same w (wmem w') /\ statics (wmem w') = statics (wmem w)
+            /\ from_int_post (wmem w) (refs (pool w)) z (wmem w') s
+            /\ out = match s with Some _ => OkUnit | None => fin m false end.
+Proof.
+  intros HW Hlut Htab Hz He. cbn [exec] in He.
+  destruct (exec_ctor_sound w (opt_ctor m (from_int t z)) (fun m' s o => from_int_post (wmem w) (refs (pool w)) z m' s
+                                    /\ o = match s with Some _ => OkUnit | None => fin m false end) HW) with (w' := w') (out := out)
+    as (s & Ew & (HP & Ho) & HW' & Ha & Hs & _); [|exact He|].
+  - unfold opt_ctor. apply wp_bind. apply (from_int_wp (wmem w) (refs (pool w)) t z lo hi); auto; [exact (wf_mi _ HW)|].
+    intros m' o HP. unfold lift. destruct o as [r'|]; apply wp_ret.
+    + exists (Some r'), OkUnit. split; [reflexivity|]. split; [|auto]. cbn [ctor_inv].
+      destruct (fi_some _ _ _ _ _ HP r' eq_refl) as (H1 & _). exact H1.
+    + exists None, (fin m false). split; [reflexivity|]. split; [|auto].
+      destruct (fi_none _ _ _ _ _ HP eq_refl) as (E & Hh & _). apply ctor_inv_none_same; auto.
+  - exists s. auto 10.
+Qed.
+
+(* ---------- s = s + x ---------- *)
+Lemma op_add w i s w' out :
+  WF w -> Valid s -> exec w (OAdd i s) = (w', out) ->
+  (get_slot w i = None /\ w' = w /\ out = Skip)
+  \/ (exists r, nth_error (pool w) i = Some (Some r) /\ WF w' /\ others_same w i (wmem w')
+        /\ statics (wmem w') = statics (wmem w)
+        /\ ((exists r', w' = set_slot w (wmem w') i (Some r') /\ out = OkUnit
+                        /\ push_post (wmem w) (refs (pool w)) r s (wmem w') r' true)
+            \/ (w' = set_slot w (wmem w') i None /\ out = PanicReserve))).
+Proof.
+  intros HW Hv He. cbn [exec] in He. destruct (get_slot w i) as [r|] eqn:Hg; [|left; injection He as <- <-; auto].
+  right. apply get_slot_nth in Hg.
+  pose proof (wf_mi _ HW) as HM. pose proof (wf_handles _ HW _ _ Hg) as Hr. pose proof (counted_refs _ _ _ Hg) as Hc.
+  match type of He with (match run ?c _ with _ => _ end = _) =>
+    assert (HA : wp c (fun o m' => match o with
+                       | OVal (Some r') => push_post (wmem w) (refs (pool w)) r s m' r' true
+                       | OVal None => exists r1, step_ok (wmem w) (refs (pool w)) r m' r1 /\ (forall b, names r1 b = false)
+                       | OUb _ => False end) (wmem w)) end.
+  { apply wp_bind. apply (push_str_wp (wmem w) (refs (pool w))); auto. intros m1 r1 ok HP. unfold lift. cbn [fst snd].
+    destruct ok.
+    - apply wp_ret. exact HP.
+    - pose proof (pp_step _ _ _ _ _ _ _ HP) as S1.
+      apply wp_bind. apply (replace_nonheap_wp m1 (adj (refs (pool w)) r r1) r1 repr_new).
+      + exact (so_mi _ _ _ _ _ S1).
+      + exact (so_h _ _ _ _ _ S1).
+      + apply counted_adj.
+      + reflexivity.
+      + intros h. apply repr_new_ok.
+      + intros m2 r2 [-> S2 _ _]. unfold lift. apply wp_ret. exists repr_new. split; [|apply repr_new_names].
+        eapply step_ok_trans; eauto. }
+  apply wp_run in HA. destruct (run _ (wmem w)) as [[[r'|]|u] m'] eqn:Hrun; cbn [fst snd] in HA; [| |contradiction].
+  - injection He as <- <-. pose proof (pp_step _ _ _ _ _ _ _ HA) as S.
+    destruct (wf_set_slot w i r m' r' HW Hg S) as (HW' & Ho).
+    exists r. cbn [set_slot wmem]. split; [exact Hg|]. split; [exact HW'|]. split.
+    { intros j rj Hne Hj. apply (Ho j rj Hne Hj). }
+    split; [destruct S as [(E1 & _) _ _ _]; exact E1|]. left. exists r'. auto.
+  - injection He as <- <-. destruct HA as (r1 & S & Hn).
+    destruct (wf_clear_slot w i r m' r1 HW Hg S Hn) as (HW' & Ho).
+    exists r. cbn [set_slot wmem]. split; [exact Hg|]. split; [exact HW'|]. split; [exact Ho|].
+    split; [destruct S as [(E1 & _) _ _ _]; exact E1|]. right. auto.
 Qed.
